@@ -1,7 +1,7 @@
 (** Entailment / refutation rules for the character predicates (strings and
     matrices), the valuations induced by a host and an anchor, and their
     soundness. *)
-From PM Require Import Model.Prelude Model.Domain Model.DomString Model.DomMatrix.
+From PM Require Import Model.Prelude Model.Domain Model.Automaton Model.DomString Model.DomMatrix.
 
 Section CharRules.
   Context {K : Type} (keqb : K -> K -> bool).
@@ -32,6 +32,21 @@ Definition m_goodb (ks : list mkey) : bool :=
   nodupb mkey_eqb ks && (match ks with [] => true | _ => memb mkey_eqb (0, 0)%Z ks end).
 (** strings and matrices: every constraint is its own single atom *)
 Definition atoms_self {K P} (c : constraint K P) : list (constraint K P) := [c].
+
+(** the keys recorded with an accepted pattern are the base key or keys mentioned
+    by the pattern's constraints, and there is at least one unless the pattern
+    has no constraints: an occurrence then offers a value for each of them *)
+Definition keys_tight {K P} (keqb : K -> K -> bool) (base : K -> bool)
+    (A : automaton K P) (cs : list (list (constraint K P))) : bool :=
+  forallb (fun st =>
+    forallb (fun pk =>
+      match nth_error cs (N.to_nat (fst pk)) with
+      | Some cp =>
+          (match snd pk with [] => match cp with [] => true | _ => false end | _ => true end)
+          && forallb (fun k => base k || existsb (fun c => memb keqb k (cargs c)) cp) (snd pk)
+      | None => false
+      end) (a_matches st)) (au_states A).
+Definition s_keys_tight := @keys_tight N cpredicate N.eqb (fun k => N.eqb k 0).
 
 (** ** valuations induced by a host and an anchor *)
 Definition sval (h : shost) (a : N) (c : sconstraint) : bool :=
